@@ -3,6 +3,7 @@
 -/
 import MTVerif.Model.Rewrite
 import MTVerif.Lemmas.ShrinkSound
+import MTVerif.Lemmas.Beq
 namespace MT
 set_option linter.unusedSectionVars false
 set_option linter.unusedVariables false
@@ -166,8 +167,7 @@ theorem mscbUnion_wf (h : Hier) (fuel : Nat) (ts : List Ty) (hw : wfTL ts = true
   split
   · split
     · simpa [Ty.wf] using hw
-    · simp only
-      split
+    · split
       · simp [Ty.wf]
       · simpa [Ty.wf] using hw
   · simpa [Ty.wf] using hw
@@ -261,6 +261,512 @@ theorem rewriteFV_wf (h : Hier) (r : RW) : ∀ fs : List (String × Ty), wfTF fs
       rcases ht with heq | ht
       · rw [heq]; exact rewrite_wf h r a hw.1
       · exact rewriteFV_wf h r as hw.2 t ht
+end
+
+end MT
+
+namespace MT
+set_option linter.unusedSectionVars false
+set_option linter.unusedVariables false
+
+/-! ### node-level soundness of the union overrides -/
+
+theorem isAny_eq (t : Ty) (h : t.isAny = true) : t = .any := by cases t <;> simp_all [Ty.isAny]
+
+theorem dropped_has_kept (ts : List Ty) (t : Ty) (h : dropEmpty ts t = true) :
+    ∃ m ∈ ts, m.isEmptyC = false ∧ m.kind = t.kind := by
+  simp only [dropEmpty, Bool.and_eq_true, nonEmptyKinds, List.contains_iff_mem, List.mem_map, List.mem_filter,
+    Bool.not_eq_true'] at h
+  obtain ⟨_, m, ⟨hm, hne⟩, hk⟩ := h
+  exact ⟨m, hm, hne, hk⟩
+
+section
+variable (sub : ClassId → ClassId → Bool)
+
+theorem all_false_nil {α} (l : List α) (h : l.all (fun _ => false) = true) : l = [] := by
+  cases l <;> simp_all
+
+/-- under the tight reading an empty-container type `C[Any]` admits only the empty `C`, which every
+    non-empty container type of the same kind admits too -/
+theorem empty_same_kind (t m : Ty) (v : Val) (ht : t.isEmptyC = true) (hm : m.isEmptyC = false)
+    (hk : m.kind = t.kind) (hc : conforms sub false t v = true) : conforms sub false m v = true := by
+  cases t with
+  | list a =>
+    have := isAny_eq a (by simpa [Ty.isEmptyC] using ht); subst this
+    cases v <;> simp [conforms] at hc
+    rename_i vs
+    have : vs = [] := by
+      cases vs with
+      | nil => rfl
+      | cons x xs => exact absurd (List.mem_cons_self ..) (hc x)
+    subst this
+    cases m <;> simp [Ty.kind] at hk
+    simp [conforms]
+  | set a =>
+    have := isAny_eq a (by simpa [Ty.isEmptyC] using ht); subst this
+    cases v <;> simp [conforms] at hc
+    rename_i vs
+    have : vs = [] := by
+      cases vs with
+      | nil => rfl
+      | cons x xs => exact absurd (List.mem_cons_self ..) (hc x)
+    subst this
+    cases m <;> simp [Ty.kind] at hk
+    simp [conforms]
+  | iterator a =>
+    cases v <;> simp [conforms] at hc
+    cases m <;> simp [Ty.kind] at hk
+    simp [conforms]
+  | generator a b c =>
+    cases v <;> simp [conforms] at hc
+    cases m <;> simp [Ty.kind] at hk
+    simp [conforms]
+  | dict a b =>
+    simp only [Ty.isEmptyC, Bool.and_eq_true] at ht
+    have h1 := isAny_eq a ht.1; have h2 := isAny_eq b ht.2; subst h1; subst h2
+    cases m <;> simp [Ty.kind] at hk
+    cases v <;> simp [conforms] at hc
+    all_goals
+      rename_i kvs
+      have : kvs = [] := by
+        cases kvs with
+        | nil => rfl
+        | cons p ps => exact absurd (List.mem_cons_self ..) (hc p.1 p.2)
+      subst this
+      simp [conforms]
+  | ddict a b =>
+    simp only [Ty.isEmptyC, Bool.and_eq_true] at ht
+    have h1 := isAny_eq a ht.1; have h2 := isAny_eq b ht.2; subst h1; subst h2
+    cases m <;> simp [Ty.kind] at hk
+    cases v <;> simp [conforms] at hc
+    rename_i kvs
+    have : kvs = [] := by
+      cases kvs with
+      | nil => rfl
+      | cons p ps => exact absurd (List.mem_cons_self ..) (hc p.1 p.2)
+    subst this
+    simp [conforms]
+  | tuple ts =>
+    exfalso
+    simp only [Ty.isEmptyC, Bool.and_eq_true, Bool.not_eq_true', List.all_eq_true] at ht
+    cases ts with
+    | nil => simp at ht
+    | cons a as =>
+      have := isAny_eq a (ht.2 a (List.mem_cons_self ..)); subst this
+      cases v <;> simp [conforms] at hc
+      rename_i vs
+      cases vs <;> simp [conformsL, conforms] at hc
+  | union ts =>
+    exfalso
+    simp only [Ty.isEmptyC, Bool.and_eq_true, List.all_eq_true] at ht
+    simp only [conforms] at hc
+    obtain ⟨u, hu, hcu⟩ := (conformsAny_iff sub false ts v).mp hc
+    have := isAny_eq u (ht.2 u hu); subst this
+    simp [conforms] at hcu
+  | any => simp [Ty.isEmptyC] at ht
+  | cls _ => simp [Ty.isEmptyC] at ht
+  | typeOf _ => simp [Ty.isEmptyC] at ht
+  | callable => simp [Ty.isEmptyC] at ht
+  | tupleOf _ => simp [Ty.isEmptyC] at ht
+  | td _ _ => simp [Ty.isEmptyC] at ht
+
+theorem configDictUnion_sound (ai ao : Bool) (hm : ai = true → ao = true) (ts : List Ty) (hw : wfTL ts = true)
+    (v : Val) (h : ∃ t ∈ ts, conforms sub ai t v = true) : conforms sub ao (configDictUnion ts) v = true := by
+  obtain ⟨t, ht, hc⟩ := h
+  have hc' := conforms_mono sub ai ao hm t v hc
+  unfold configDictUnion
+  cases ts with
+  | nil => cases ht
+  | cons t0 rest =>
+    simp only
+    split
+    · next hcond =>
+      simp only [Bool.and_eq_true, List.all_eq_true] at hcond
+      have hd := hcond.1 t ht
+      have hk := hcond.2 t ht
+      have hwt := (wfTL_iff _).mp hw t ht
+      cases t <;> simp [Ty.isDict] at hd
+      rename_i k x
+      simp only [Ty.dictKey] at hk
+      simp only [Ty.wf, Bool.and_eq_true] at hwt
+      have hvals : ∀ u ∈ (t0 :: rest).map Ty.dictVal, u.wf = true := by
+        intro u hu
+        obtain ⟨w, hw', rfl⟩ := List.mem_map.mp hu
+        have := (wfTL_iff _).mp hw w hw'
+        cases w <;> simp_all [Ty.dictVal, Ty.wf]
+      have hxm : x ∈ (t0 :: rest).map Ty.dictVal := List.mem_map.mpr ⟨_, ht, rfl⟩
+      cases v <;> simp [conforms] at hc'
+      all_goals
+        simp only [conforms, List.all_eq_true, Bool.and_eq_true]
+        intro kv hkv
+        have ⟨h1, h2⟩ := hc' kv.1 kv.2 hkv
+        exact ⟨(Ty.eqv_sound sub ao t0.dictKey k hk hwt.1 kv.1).mpr h1,
+               mkUnion_sound sub ao _ hvals kv.2 ⟨x, hxm, h2⟩⟩
+    · simp only [conforms]
+      exact (conformsAny_iff sub ao _ v).mpr ⟨t, ht, hc'⟩
+
+theorem toTupleOf_sound (ai : Bool) (ts : List Ty) (u : Ty) (hu : toTupleOf ts = some u)
+    (v : Val) (h : ∃ t ∈ ts, conforms sub ai t v = true) : conforms sub ai u v = true := by
+  obtain ⟨t, ht, hc⟩ := h
+  unfold toTupleOf at hu
+  split at hu
+  · split at hu
+    · cases hu
+    · next w hw =>
+      split at hu
+      · next hall =>
+        cases hu
+        have := List.all_eq_true.mp hall t ht
+        cases t <;> simp at this
+        rename_i as
+        cases v <;> simp [conforms] at hc
+        rename_i vs
+        simp only [conforms, List.all_eq_true]
+        -- every position of the tuple has type `w`
+        have key : ∀ (as : List Ty) (vs : List Val), (∀ a ∈ as, Ty.beq' a w = true) →
+            conformsL sub ai as vs = true → ∀ x ∈ vs, conforms sub ai w x = true := by
+          intro as
+          induction as with
+          | nil => intro vs _ hcl x hx; cases vs <;> simp_all [conformsL]
+          | cons a as ih =>
+            intro vs hall hcl x hx
+            cases vs with
+            | nil => cases hx
+            | cons y ys =>
+              simp only [conformsL, Bool.and_eq_true] at hcl
+              rcases List.mem_cons.mp hx with rfl | hx
+              · have := Ty.beq'_eq a w (hall a (List.mem_cons_self ..)); subst this; exact hcl.1
+              · exact ih ys (fun a' ha' => hall a' (List.mem_cons_of_mem _ ha')) hcl.2 x hx
+        exact key as vs this hc
+      · cases hu
+  · cases hu
+end
+
+section
+variable (h : Hier)
+variable (htrans : ∀ a b c, h.sub a b = true → h.sub b c = true → h.sub a c = true)
+
+include htrans in
+theorem largeUnionCollapse_sound (ai : Bool) (ts : List Ty) (v : Val)
+    (hc : ∃ t ∈ ts, conforms h.sub ai t v = true) : conforms h.sub true (largeUnionCollapse h ts) v = true := by
+  unfold largeUnionCollapse
+  split
+  · next u hu =>
+    exact conforms_mono h.sub ai true (fun _ => rfl) u v (toTupleOf_sound h.sub ai ts u hu v hc)
+  · split
+    · next c0 rest =>
+      split
+      · split
+        · next a ha =>
+          obtain ⟨t, ht, hct⟩ := hc
+          have := List.find?_some ha
+          simp only [Bool.and_eq_true, List.all_eq_true] at this
+          have hta := this.2 t ht
+          cases t <;> simp at hta
+          rename_i c
+          simp only [conforms] at hct ⊢
+          exact htrans _ _ _ hct hta
+        · simp [conforms]
+      · simp [conforms]
+    · simp [conforms]
+
+variable (hbase : ∀ c b, h.bases c = [b] → h.sub c b = true) (hrefl : ∀ c, h.sub c c = true)
+
+include htrans hbase hrefl in
+theorem baseChain_sub (fuel : Nat) (c : ClassId) : ∀ a ∈ baseChain h fuel c, h.sub c a = true := by
+  induction fuel generalizing c with
+  | zero => intro a ha; simp [baseChain] at ha
+  | succ n ih =>
+    intro a ha
+    simp only [baseChain] at ha
+    split at ha
+    · simp at ha
+    · split at ha
+      · next b hb =>
+        rcases List.mem_cons.mp ha with rfl | ha
+        · exact hrefl _
+        · exact htrans _ _ _ (hbase c b hb) (ih b a ha)
+      · simp only [List.mem_singleton] at ha; subst ha; exact hrefl _
+
+theorem mem_commonPrefix (a : ClassId) : ∀ (xs ys : List ClassId), a ∈ commonPrefix xs ys → a ∈ xs ∧ a ∈ ys
+  | [], _, h => by simp [commonPrefix] at h
+  | _ :: _, [], h => by simp [commonPrefix] at h
+  | x :: xs, y :: ys, h => by
+      simp only [commonPrefix] at h
+      split at h
+      · next hxy =>
+        have : x = y := by simpa using hxy
+        subst this
+        rcases List.mem_cons.mp h with rfl | h
+        · exact ⟨List.mem_cons_self .., List.mem_cons_self ..⟩
+        · have := mem_commonPrefix a xs ys h
+          exact ⟨List.mem_cons_of_mem _ this.1, List.mem_cons_of_mem _ this.2⟩
+      · simp at h
+
+theorem mem_foldl_commonPrefix (a : ClassId) (l : List (List ClassId)) :
+    ∀ init, a ∈ l.foldl commonPrefix init → a ∈ init ∧ ∀ x ∈ l, a ∈ x := by
+  induction l with
+  | nil => intro init h; exact ⟨h, by simp⟩
+  | cons y ys ih =>
+    intro init h
+    simp only [List.foldl_cons] at h
+    have := ih _ h
+    have h2 := mem_commonPrefix a init y this.1
+    refine ⟨h2.1, ?_⟩
+    intro x hx
+    rcases List.mem_cons.mp hx with rfl | hx
+    · exact h2.2
+    · exact this.2 x hx
+
+include htrans hbase hrefl in
+theorem mscbUnion_sound (ai ao : Bool) (hm : ai = true → ao = true) (fuel : Nat) (ts : List Ty) (v : Val)
+    (hc : ∃ t ∈ ts, conforms h.sub ai t v = true) : conforms h.sub ao (mscbUnion h fuel ts) v = true := by
+  obtain ⟨t, ht, hct⟩ := hc
+  have hmono := conforms_mono h.sub ai ao hm t v hct
+  have hun : conforms h.sub ao (.union ts) v = true := by
+    simp only [conforms]; exact (conformsAny_iff h.sub ao ts v).mpr ⟨t, ht, hmono⟩
+  unfold mscbUnion
+  split
+  · next hall =>
+    split
+    · exact hun
+    · next c0 cs hcs =>
+      split
+      · next a ha =>
+        -- `a` lies in the chain of every member, in particular of `t`
+        have htc := List.all_eq_true.mp hall t ht
+        cases t <;> simp [Ty.clsId?] at htc
+        rename_i c
+        have hcmem : c ∈ c0 :: cs := by
+          rw [← hcs]; simp only [List.mem_filterMap]; exact ⟨_, ht, rfl⟩
+        have hmem := List.mem_of_getLast? ha
+        have := mem_foldl_commonPrefix a _ _ hmem
+        have hin : a ∈ baseChain h fuel c := by
+          rcases List.mem_cons.mp hcmem with rfl | hc'
+          · simpa using this.1
+          · have := this.2 ((baseChain h fuel c).reverse) (List.mem_map.mpr ⟨c, hc', rfl⟩)
+            simpa using this
+        simp only [conforms] at hct ⊢
+        exact htrans _ _ _ hct (baseChain_sub h htrans hbase hrefl fuel c a hin)
+      · exact hun
+  · exact hun
+end
+
+end MT
+
+namespace MT
+set_option linter.unusedSectionVars false
+set_option linter.unusedVariables false
+
+/-- the readings of `Any` under which rewriter `r` is sound: input reading `ai`, output reading `ao` -/
+def RW.ok (r : RW) (ai ao : Bool) : Prop :=
+  (ai = true → ao = true) ∧ (r = .removeEmpty → ai = false ∧ ao = false) ∧ (∀ n, r = .largeUnion n → ao = true)
+
+section
+variable (h : Hier)
+variable (htrans : ∀ a b c, h.sub a b = true → h.sub b c = true → h.sub a c = true)
+variable (hbase : ∀ c b, h.bases c = [b] → h.sub c b = true) (hrefl : ∀ c, h.sub c c = true)
+
+include htrans hbase hrefl in
+mutual
+theorem rewrite_sound (r : RW) (ai ao : Bool) (hok : r.ok ai ao) :
+    ∀ (t : Ty) (v : Val), t.wf = true → conforms h.sub ai t v = true → conforms h.sub ao (rewrite h r t) v = true
+  | .any, v, _, hc => by simp only [rewrite, conforms] at hc ⊢; exact hok.1 hc
+  | .cls c, v, _, hc => by simpa [rewrite, conforms] using hc
+  | .typeOf c, v, _, hc => by cases v <;> simp_all [rewrite, conforms]
+  | .callable, v, _, hc => by cases v <;> simp_all [rewrite, conforms]
+  | .iterator a, v, _, hc => by cases v <;> simp_all [rewrite, conforms]
+  | .generator a b c, v, _, hc => by
+      cases v <;> simp [conforms] at hc
+      simp only [rewrite]
+      split
+      · split
+        · split <;> simp [conforms]
+        · simp [conforms]
+      · simp [conforms]
+  | .list a, v, hw, hc => by
+      simp only [Ty.wf] at hw
+      cases v <;> simp [conforms] at hc
+      simp only [rewrite, conforms, List.all_eq_true]
+      intro x hx; exact rewrite_sound r ai ao hok a x hw (hc x hx)
+  | .set a, v, hw, hc => by
+      simp only [Ty.wf] at hw
+      cases v <;> simp [conforms] at hc
+      simp only [rewrite, conforms, List.all_eq_true]
+      intro x hx; exact rewrite_sound r ai ao hok a x hw (hc x hx)
+  | .tupleOf a, v, hw, hc => by
+      simp only [Ty.wf] at hw
+      cases v <;> simp [conforms] at hc
+      simp only [rewrite, conforms, List.all_eq_true]
+      intro x hx; exact rewrite_sound r ai ao hok a x hw (hc x hx)
+  | .dict a b, v, hw, hc => by
+      simp only [Ty.wf, Bool.and_eq_true] at hw
+      cases v <;> simp [conforms] at hc
+      all_goals
+        simp only [rewrite, conforms, List.all_eq_true, Bool.and_eq_true]
+        intro x hx
+        have ⟨h1, h2⟩ := hc x.1 x.2 hx
+        exact ⟨rewrite_sound r ai ao hok a _ hw.1 h1, rewrite_sound r ai ao hok b _ hw.2 h2⟩
+  | .ddict a b, v, hw, hc => by
+      simp only [Ty.wf, Bool.and_eq_true] at hw
+      cases v <;> simp [conforms] at hc
+      simp only [rewrite, conforms, List.all_eq_true, Bool.and_eq_true]
+      intro x hx
+      have ⟨h1, h2⟩ := hc x.1 x.2 hx
+      exact ⟨rewrite_sound r ai ao hok a _ hw.1 h1, rewrite_sound r ai ao hok b _ hw.2 h2⟩
+  | .tuple ts, v, hw, hc => by
+      simp only [Ty.wf] at hw
+      cases v <;> simp [conforms] at hc
+      simp only [rewrite, conforms]
+      exact rewriteL_sound r ai ao hok ts _ hw hc
+  | .union ts, v, hw, hc => by
+      simp only [Ty.wf] at hw
+      simp only [conforms] at hc
+      have hex := (conformsAny_iff h.sub ai ts v).mp hc
+      simp only [rewrite]
+      split
+      · -- RemoveEmptyContainers
+        have hro := (hok.2.1 rfl)
+        obtain ⟨hai, hao⟩ := hro
+        subst hai; subst hao
+        apply mkUnion_sound h.sub false _ (rewriteKeep_wf h _ _ ts hw)
+        obtain ⟨t, ht, hct⟩ := hex
+        by_cases hd : dropEmpty ts t = true
+        · obtain ⟨m, hm, hme, hmk⟩ := dropped_has_kept ts t hd
+          have htE : t.isEmptyC = true := by
+            simp only [dropEmpty, Bool.and_eq_true] at hd; exact hd.1
+          have hcm := empty_same_kind h.sub t m v htE hme hmk hct
+          have hkeep : (!dropEmpty ts m) = true := by simp [dropEmpty, hme]
+          exact rewriteKeep_any .removeEmpty false false hok (fun t => !dropEmpty ts t) ts v hw ⟨m, hm, hkeep, hcm⟩
+        · have hkeep : (!dropEmpty ts t) = true := by simpa using hd
+          exact rewriteKeep_any .removeEmpty false false hok (fun t => !dropEmpty ts t) ts v hw ⟨t, ht, hkeep, hct⟩
+      · exact configDictUnion_sound h.sub ai ao hok.1 ts hw v hex
+      · next n =>
+        split
+        · simp only [conforms]
+          exact conformsAny_mono h.sub ai ao hok.1 ts v hc
+        · have := hok.2.2 n rfl
+          subst this
+          exact largeUnionCollapse_sound h htrans ai ts v hex
+      · exact mscbUnion_sound h htrans hbase hrefl ai ao hok.1 64 ts v hex
+      · next hne1 hne2 hne3 hne4 =>
+        apply mkUnion_sound h.sub ao _ (rewriteL_wf h r ts hw)
+        exact (conformsAny_iff h.sub ao _ v).mp (rewriteL_any r ai ao hok ts v hw hc)
+  | .td req opt, v, hw, hc => by
+      simp only [Ty.wf, Bool.and_eq_true, decide_eq_true_eq] at hw
+      obtain ⟨⟨⟨hwr, hwo⟩, _⟩, _⟩ := hw
+      cases v <;> simp [conforms] at hc
+      rename_i kvs
+      obtain ⟨hreq, hall⟩ := hc
+      simp only [rewrite]
+      split
+      · -- RewriteAnonymousTypedDictToDict
+        split
+        · simp only [conforms, List.all_eq_true, Bool.and_eq_true]
+          intro kv hkv
+          have := hall kv.1 kv.2 hkv
+          split at this <;> simp [conformsField] at this
+        · have hwf : ∀ t ∈ rewriteFV h .anonTD req ++ rewriteFV h .anonTD opt, t.wf = true := by
+            intro t ht
+            rcases List.mem_append.mp ht with ht | ht
+            · exact rewriteFV_wf h _ req hwr t ht
+            · exact rewriteFV_wf h _ opt hwo t ht
+          simp only [conforms, List.all_eq_true, Bool.and_eq_true]
+          intro kv hkv
+          have := hall kv.1 kv.2 hkv
+          split at this
+          · next s hs =>
+            refine ⟨by rw [hs]; simp [conforms, Val.classOf, hrefl], ?_⟩
+            apply mkUnion_sound h.sub ao _ hwf
+            simp only [Bool.or_eq_true] at this
+            rcases this with h1 | h1
+            · obtain ⟨u, hu, hcu⟩ := rewriteFV_field .anonTD ai ao hok req s kv.2 hwr h1
+              exact ⟨u, List.mem_append_left _ hu, hcu⟩
+            · obtain ⟨u, hu, hcu⟩ := rewriteFV_field .anonTD ai ao hok opt s kv.2 hwo h1
+              exact ⟨u, List.mem_append_right _ hu, hcu⟩
+          · simp at this
+      · simp only [conforms, Bool.and_eq_true, List.all_eq_true]
+        refine ⟨rewriteF_req r ai ao hok req kvs hwr hreq, ?_⟩
+        intro kv hkv
+        have := hall kv.1 kv.2 hkv
+        split at this
+        · simp only [Bool.or_eq_true] at this ⊢
+          rcases this with h1 | h1
+          · left; exact rewriteF_field r ai ao hok req _ _ hwr h1
+          · right; exact rewriteF_field r ai ao hok opt _ _ hwo h1
+        · simp at this
+theorem rewriteL_sound (r : RW) (ai ao : Bool) (hok : r.ok ai ao) :
+    ∀ (ts : List Ty) (vs : List Val), wfTL ts = true → conformsL h.sub ai ts vs = true →
+      conformsL h.sub ao (rewriteL h r ts) vs = true
+  | [], vs, _, hc => by cases vs <;> simp_all [rewriteL, conformsL]
+  | t :: ts, vs, hw, hc => by
+      simp only [wfTL, Bool.and_eq_true] at hw
+      cases vs with
+      | nil => simp [conformsL] at hc
+      | cons v vs =>
+        simp only [conformsL, Bool.and_eq_true] at hc
+        simp only [rewriteL, conformsL, Bool.and_eq_true]
+        exact ⟨rewrite_sound r ai ao hok t v hw.1 hc.1, rewriteL_sound r ai ao hok ts vs hw.2 hc.2⟩
+theorem rewriteL_any (r : RW) (ai ao : Bool) (hok : r.ok ai ao) :
+    ∀ (ts : List Ty) (v : Val), wfTL ts = true → conformsAny h.sub ai ts v = true →
+      conformsAny h.sub ao (rewriteL h r ts) v = true
+  | [], _, _, hc => by simp [conformsAny] at hc
+  | t :: ts, v, hw, hc => by
+      simp only [wfTL, Bool.and_eq_true] at hw
+      simp only [conformsAny, Bool.or_eq_true] at hc
+      simp only [rewriteL, conformsAny, Bool.or_eq_true]
+      rcases hc with hc | hc
+      · left; exact rewrite_sound r ai ao hok t v hw.1 hc
+      · right; exact rewriteL_any r ai ao hok ts v hw.2 hc
+theorem rewriteKeep_any (r : RW) (ai ao : Bool) (hok : r.ok ai ao) (keep : Ty → Bool) :
+    ∀ (ts : List Ty) (v : Val), wfTL ts = true → (∃ t ∈ ts, keep t = true ∧ conforms h.sub ai t v = true) →
+      ∃ u ∈ rewriteKeep h r keep ts, conforms h.sub ao u v = true
+  | [], _, _, hc => by obtain ⟨t, ht, _⟩ := hc; cases ht
+  | t :: ts, v, hw, hc => by
+      simp only [wfTL, Bool.and_eq_true] at hw
+      obtain ⟨u, hu, hk, hcu⟩ := hc
+      simp only [rewriteKeep]
+      rcases List.mem_cons.mp hu with heq | hu'
+      · rw [heq] at hk hcu
+        rw [if_pos hk]
+        exact ⟨_, List.mem_cons_self .., rewrite_sound r ai ao hok t v hw.1 hcu⟩
+      · obtain ⟨w, hw', hcw⟩ := rewriteKeep_any r ai ao hok keep ts v hw.2 ⟨u, hu', hk, hcu⟩
+        split
+        · exact ⟨w, List.mem_cons_of_mem _ hw', hcw⟩
+        · exact ⟨w, hw', hcw⟩
+theorem rewriteF_req (r : RW) (ai ao : Bool) (hok : r.ok ai ao) :
+    ∀ (fs : List (String × Ty)) (kvs : List (Val × Val)), wfTF fs = true → conformsReq h.sub ai fs kvs = true →
+      conformsReq h.sub ao (rewriteF h r fs) kvs = true
+  | [], _, _, _ => by simp [rewriteF, conformsReq]
+  | (k, t) :: fs, kvs, hw, hc => by
+      simp only [wfTF, Bool.and_eq_true] at hw
+      simp only [conformsReq, Bool.and_eq_true, List.any_eq_true] at hc
+      simp only [rewriteF, conformsReq, Bool.and_eq_true, List.any_eq_true]
+      obtain ⟨⟨kv, hkv, hck⟩, hr⟩ := hc
+      exact ⟨⟨kv, hkv, hck.1, rewrite_sound r ai ao hok t _ hw.1 hck.2⟩, rewriteF_req r ai ao hok fs kvs hw.2 hr⟩
+theorem rewriteF_field (r : RW) (ai ao : Bool) (hok : r.ok ai ao) :
+    ∀ (fs : List (String × Ty)) (s : String) (v : Val), wfTF fs = true → conformsField h.sub ai fs s v = true →
+      conformsField h.sub ao (rewriteF h r fs) s v = true
+  | [], _, _, _, hc => by simp [conformsField] at hc
+  | (k, t) :: fs, s, v, hw, hc => by
+      simp only [wfTF, Bool.and_eq_true] at hw
+      simp only [conformsField] at hc
+      simp only [rewriteF, conformsField]
+      split
+      · next hk => rw [if_pos hk] at hc; exact rewrite_sound r ai ao hok t v hw.1 hc
+      · next hk => rw [if_neg hk] at hc; exact rewriteF_field r ai ao hok fs s v hw.2 hc
+theorem rewriteFV_field (r : RW) (ai ao : Bool) (hok : r.ok ai ao) :
+    ∀ (fs : List (String × Ty)) (s : String) (v : Val), wfTF fs = true → conformsField h.sub ai fs s v = true →
+      ∃ u ∈ rewriteFV h r fs, conforms h.sub ao u v = true
+  | [], _, _, _, hc => by simp [conformsField] at hc
+  | (k, t) :: fs, s, v, hw, hc => by
+      simp only [wfTF, Bool.and_eq_true] at hw
+      simp only [conformsField] at hc
+      simp only [rewriteFV, List.mem_cons, exists_eq_or_imp]
+      split at hc
+      · left; exact rewrite_sound r ai ao hok t v hw.1 hc
+      · right; exact rewriteFV_field r ai ao hok fs s v hw.2 hc
+end
 end
 
 end MT
